@@ -150,8 +150,20 @@ def run(F, tier, res):
             key_ok = any(r[0] == 'param' and r[1] == 2 for r in F.trace(bm, cc['args'][1], deep=True))
             val_ok = any(r[0] == 'call' and r[1] == gc for r in F.trace(bm, cc['args'][2], deep=True))
             same_key = any(r[0] == 'param' and r[1] == 2 for r in F.trace(bm, c['args'][1]))
-            if key_ok and val_ok and same_key and not Ru.must_pass(F, bm, c['target'], {j}):
-                good = True
+            if key_ok and val_ok and same_key:
+                # every path on which the key is NOT a repeat must pass the insert (for a repeat the stored colour is the same)
+                S2 = {}
+                cut = set()
+                for (sb, op, arms, other) in Ru.switches(F, bm):
+                    if any(r[0] == 'param' and r[1] == 4 and not r[2] for r in F.trace(bm, op)):
+                        tt, ft = Ru.bool_edges(arms, other)
+                        neg = Ru.negations(F, bm, op) % 2 == 1
+                        cut.add((sb, ft if neg else tt))
+                for b_, ss in F.cfg(bm).items():
+                    S2[b_] = [x for x in ss if (b_, x) not in cut]
+                r_ = reach(S2, c['target'], avoid={j})
+                if not any(x in r_ for x in Ru.returns(F, bm)):
+                    good = True
         if good:
             okm += 1
         else:
